@@ -1,15 +1,18 @@
 from .. import common, mir
-from ..rules import dec
+from ..rules import dec, c04
 
 
 def run(tier, replay=None):
     rep = common.Report("C02", tier)
     cfgs = ["dev-std", "dev-nostd"] if tier == "quick" else mir.CONFIGS
     mir.ensure_facts(cfgs)
+    mir.ensure_facts(["dev-std"], src=c04.REF_SRC, crate="rfcref")
     rep.configs = cfgs
     for cfg in cfgs:
         crate = mir.load(cfg)
         r = dec.roles_sbd(crate)
         dec.c02_block(rep, crate, cfg, r)
         dec.c01_solve(rep, crate, cfg, r)
+        # the linear system the decoder solves has one row per received symbol and the RFC's pre-code rows
+        c04.run_ldpc_hdpc(rep, crate, cfg)
     return rep.finish("other", "a block decodes exactly when determined: structural clauses", "./check C02 %s" % tier)
